@@ -24,7 +24,7 @@ from harness import httpr_tokens as T
 MC_Q = {"Modes": '{"client"}', "Responds": '{"sync"}', "Timeouts": "{FALSE}", "Shuts": "{FALSE}", "Heads": "{FALSE, TRUE}",
         "SLs": "{1, 2, 3, 6, 7, 9}", "RHs": "{1, 2, 3, 4, 8, 14}", "RH2s": "{1}", "RBs": "{1, 2, 3, 4, 7}", "Dev": 0, "Sizes": "{1, 2, 5}",
         "MaxBodies": "{2, 3, 1000000}"}
-GEN_Q = {"SLs": "{1, 2, 3, 6, 7, 9}", "RHs": "{1, 2, 3, 4, 8, 14}", "RBs": "{1, 2, 3, 4, 7}", "RH2s": "{1, 3}", "BLANKs": "{1}", "GzIdx": "{1, 3}"}
+GEN_Q = {"SLs": "{1, 2, 3, 6, 7, 9}", "RHs": "{1, 2, 3, 8, 14}", "RBs": "{1, 2, 3, 4, 7}", "RH2s": "{1, 3}", "BLANKs": "{1}", "GzIdx": "{3}"}
 GEN_T = {"SLs": "1..19", "RHs": "1..19", "RBs": "1..15", "RH2s": "1..9", "BLANKs": "{1, 2}", "GzIdx": "{1, 2, 3, 4}", "GzDrops": "{0, 1, 5, 9}"}
 
 
@@ -53,7 +53,7 @@ def run(ctx):
     cases = H.gen_cases(ctx, GEN_Q if ctx.quick else GEN_T, cfg="GenC_HttpReader.cfg")
     H.replay_client(ctx, cases)
     ctx.cov["exhaustive"] = True
-    n = ctx.pick(300, 20000)
+    n = ctx.pick(200, 20000)
     traces = framework.pool_map(record_random, [(i + 1, ctx.seed * 1000003 + 808 + i) for i in range(n)])
     H.validate(ctx, traces, H.classify_client)
     ctx.cov["rule"] = ("%d (response wire, request method, decompress, limit) cases x {plain, streaming_callback} x {all single "
